@@ -17,7 +17,7 @@ common.register_models('kv_track_fast', install)
 def install_v1(eng):
     models_sqlite.install_kv(eng, {'pk': {'MetaData': ('id', 'type'), 'MetaDataInteger': ('id', 'type')}, 'maintained': {}, 'defaults': {}})
     eng.alt_solver = lambda pc, cond: bv2int.solve_int(pc, cond, 60000, None, getattr(eng, 'cur_ranges', None))
-    eng.inc_timeout_ms = 400; eng.timeout_ms = 1200
+    eng.inc_timeout_ms = 400; eng.timeout_ms = 2500
 common.register_models('kv_track_v1', install_v1)
 def install_v1_slow(eng):        # the waveform-extent arithmetic on a symbolic sample rate (fptosi, /210, *2, quotient) needs a longer z3 budget
     install_v1(eng); eng.timeout_ms = 30000
@@ -28,12 +28,16 @@ def configs(gen=2):
     Q = TIER == 'quick'
     out = []
     if gen == 2: schemas = [0, 1, 6] if Q else [0, 1, 2, 3, 4, 5, 6]
-    else: schemas = [0, 3, 10] if Q else list(range(11))       # 1.6.0, 1.11.1, 1.18.0-os | all eleven 1.x versions
+    else: schemas = [0, 1, 3, 7, 10] if Q else list(range(11))       # one per column-list range of engine_storage (1.6.0, 1.7.1, 1.11.1, 1.15.0, 1.18.0-os) | all eleven 1.x versions
     # schema 1.x: with a sample rate and >= 2 markers the stored BPM is derived from the (symbolic) grid - a floating-point quotient that no
     # back end decides in budget - so the runs with a symbolic grid leave the sample rate absent, and the derived BPM is covered with the concrete grid of focus 2
     G3 = ALL if gen == 2 else ALL & ~(1 << 16) & ~(1 << 39)
     for sc in schemas:
+        lite = Q and gen == 1 and sc in (1, 3)        # quick tier: the middle 1.x ranges run the string/integer group only
         for via in (0, 1):
+            if lite:
+                if via == 0: out.append(dict(schema=sc, via_update=via, focus=3, mask=G3, grid=3, cues=0x02, loops=0x80, wave=0))
+                continue
             # group 2 (cue / loop slots incl. slot 0 and slot 7, empty slots in between), group 3 (strings, integers, key, time stamp, beat grid)
             out.append(dict(schema=sc, via_update=via, focus=2, mask=ALL, grid=2, cues=0x81, loops=0x05, wave=0))
             out.append(dict(schema=sc, via_update=via, focus=3, mask=G3, grid=3, cues=0x02, loops=0x80, wave=0))
@@ -44,6 +48,7 @@ def configs(gen=2):
         # group 1 (numeric sentinels: loudness, main cue, sample rate/count, duration, rating, bpm): 64 (2.x) / 160 (1.x) paths each
         if gen == 2 or not Q or sc == schemas[-1]:
             out.append(dict(schema=sc, via_update=0, focus=1, mask=ALL, grid=0, cues=0x01, loops=0, wave=0))
+        if lite: continue
         # a waveform (resampled to 1024 entries by design: only the fixed point is asserted for it)
         out.append(dict(schema=sc, via_update=0, focus=3, mask=ALL, grid=0, cues=0, loops=0, wave=3))
     if not Q:
@@ -58,7 +63,7 @@ def main():
     jobs = [dict(harness='h_track_v2.cpp', ll=ll, entry='h_c01', params=p, models=['zlib_identity', 'kv_track_fast'], known=ck.known, must_reach=['compared', 'fixed-point'],
                  eng_opts=eo, replay='none', time_limit=1500, allow_throw='none') for p in configs(2)]
     ll1 = driver.compile_ir('h_track_v1.cpp'); driver.load_module(ll1)
-    jobs += [dict(harness='h_track_v1.cpp', ll=ll1, entry='h_c01', params=p, models=['zlib_identity', 'kv_track_v1_slow' if p['focus'] == 1 else 'kv_track_v1'], known=ck.known, must_reach=['compared', 'fixed-point'],
+    jobs += [dict(harness='h_track_v1.cpp', ll=ll1, entry='h_c01', params=p, models=['zlib_identity', 'kv_track_v1'], known=ck.known, must_reach=['compared', 'fixed-point'],
                   eng_opts=eo, replay='none', time_limit=1500, allow_throw='none') for p in configs(1)]
     if os.environ.get('VERIF_GEN'): jobs = [j for j in jobs if str(j['params']['gen']) == os.environ['VERIF_GEN']]
     jobs.sort(key=lambda j: -(j['params']['focus'] == 1))
